@@ -18,7 +18,8 @@ PROPS = {
         "rule": "for each of the 98 operator overloads (op x lhs form x rhs form) and each unary/sum operation: operand pairs built from the branch structure "
                 "(scale gaps 0..45, 19/20/21, 589..608, powers of two, up to 10^4; 1..1500 (quick) / 4000 (thorough) digits; zeros with scale, 1.00-style ones, "
                 "powers of ten, value-equal twins; primitives 0, +-1, +-2, MIN, MAX, random for all ten widths). Distinct = distinct input line (FNV-1a); "
-                "non-trivial = neither operand is zero (sums: at least two terms). Observable compared: the exact value (representation differences are counted as drift).",
+                "non-trivial = neither operand is zero (sums: at least two terms). Observable compared: the exact value (representation differences are counted as drift). "
+                "Unary: neg (value, reference, BigDecimalRef), abs (inherent, Signed::abs, BigDecimalRef::abs), Signed::signum, Signed::abs_sub, double, half, square, cube.",
         "trusted_base": TB_COMMON,
         "assumptions": ASSUME_COMMON,
     },
@@ -34,7 +35,7 @@ PROPS = {
         "rule": "10^k (k=0..5000) through the real ten_to_the_uint (hook) and digits() of 10^k, 10^k+1, -(10^k-1); all unscaled values with <= 5 digits x scales -6..6 "
                 "(accessor round trip through every constructor/view, normalized) - complete in thorough, 1/23 slice in quick; the real count_decimal_digits_uint and "
                 "get_rounding_term (hooks) on 2^(b-1) and 2^b-1 for every bit length b <= 40000 (quick) / 400000 (thorough) plus random b up to 2*10^6 / 2*10^7 - the extreme "
-                "inputs for the f64 digit estimate, judged by 10^(d-1) <= n < 10^d; random decimals up to 5000 digits with up to 5000 trailing zeros, exact scale / precision "
+                "inputs for the f64 digit estimate, judged by 10^(d-1) <= n < 10^d; re-scaling through the owned value (with_scale) and the reference view (to_owned_with_scale) by every gap -45..45 and the gaps around 256/512/590 (extension exact, reduction truncates); random decimals up to 5000 digits with up to 5000 trailing zeros, exact scale / precision "
                 "extensions by 0..5000. Non-trivial = multi-digit / has trailing zero / actually extends.",
         "trusted_base": TB_COMMON + ["f64 arithmetic of the digit estimate: the scalar condition 10^est(b) <= 2^b is proved for the real-valued formula and exercised on the real code for every bit length in range, not proved for f64"],
         "assumptions": ASSUME_COMMON,
@@ -56,7 +57,7 @@ PROPS = {
     },
     "C15": {
         "rule": "for each of i64/u64/i128/u128 MIN, MAX, their negatives and 0: the values limit + {-2.5,…,+2.5} step 0.5 and limit + random fraction, at scales 1..40, "
-                "through to_i64/to_i128/to_u64/to_u128 on values and references, to_bigint, is_integer; small unscaled values at negative scales up to -40 (pushed past a limit), "
+                "through to_i64/to_i128/to_u64/to_u128 on values and references, to_bigint, is_integer; every limit +-3 at scale 0 (the fast paths) and at negative scales when divisible, random 62..129-bit integers at scale 0; small unscaled values at negative scales up to -40 (pushed past a limit), "
                 "fractions in (-1,1), zeros with any scale, integers written with trailing zeros; From<prim>/From<&prim>/FromPrimitive for every width on MIN, MAX, 0, ±1, random; From<BigInt>. "
                 "Observable: the exact Option<integer> / bool / (int, scale).",
         "trusted_base": TB_COMMON,
@@ -152,14 +153,15 @@ PROPS = {
     },
     "C12": {
         "rule": "non-zero decimals of both signs, 1..1500 digits, scales -2000..2000: 2^i 5^j (i<=60, j<=30: terminating reciprocals, at and above their exact length), powers of ten, "
-                "99..9 and 100..01 (reciprocal just above/below a power of ten), 300..1500-digit integers (initial guess through f64 underflow), random; p in {100, 1..5 (emphasis), 1..150, 1..40}; "
+                "99..9 and 100..01 (reciprocal just above/below a power of ten), 300..1500-digit integers (initial guess through f64 underflow), bit lengths 1018..1081 (the f64 exponent limits of the guess), random; "
+                "`1 / x` with a primitive one of every integer and float width on owned and borrowed x (routes to inverse()); p in {100, 1..5 (emphasis), 1..150, 1..40}; "
                 "7 modes; inverse(-x) under the mirrored mode compared exactly with -inverse(x). Each result is judged exactly: sign, |R*x - 1| < (one unit of the p-th digit)*x, and R*x = 1 "
                 "whenever 1/x has at most p significant digits; and compared exactly with the model (which receives the real f64 initial guess through a hook and records non-termination as a failure).",
         "trusted_base": TB_COMMON + ["the f64 initial guess (taken from the code through a hook)"],
         "assumptions": ASSUME_COMMON,
     },
     "C13": {
-        "rule": "every integer argument in -120..120 (quick) / -1000..1000 (thorough); 1..40-digit arguments with magnitudes 1e-60..max, both signs; arguments within a few units of k*ln(10) "
+        "rule": "every integer argument in -120..120 (both tiers; thorough adds every 37th integer out to +-1000 and +-1000 themselves, most random arguments within +-150, one in ten out to +-400, one in forty out to +-1000); 1..40-digit arguments with magnitudes 1e-60..max, both signs; arguments within a few units of k*ln(10) "
                 "(60..110 digits) where e^x crosses a power of ten; long digit strings; ordered pairs x < y for the two-ulp order check. Each result is judged against a rational enclosure of e^x "
                 "(scaling-and-squaring, Taylor partial sums with a remainder bound, outward-rounded fixed-point interval arithmetic at 45+ guard digits): strictly positive, exactly the "
                 "configured number of digits, within one unit of the last digit; and compared exactly with the model (series loop with impl_division).",
@@ -170,7 +172,7 @@ PROPS = {
         "rule": "f32: every exponent field x both signs x mantissas {0, 1, max, 0x400000, random}; f64: every exponent field x both signs x mantissas {0, 1, max, 2^51, random}; random 32/64-bit "
                 "patterns (NaN, infinities, subnormals, +-0 included): the decimal is compared with the model and must denote exactly the IEEE value, and to_f64 of it must return the identical bits "
                 "(-0.0 -> 0.0; f32 widened exactly); to_f64 on decimals of 1..400 digits with exponents -400..400, exact halfway points between adjacent floats, values around f64::MAX, MIN_POSITIVE "
-                "and the smallest subnormal, zeros: judged in exact rational arithmetic from the returned bits (sign, 2^-48 relative, one subnormal step, infinity only near/after MAX). "
+                "and the smallest subnormal, zeros, scales beyond the i32 exponent range (2^31 +-40, 3*10^9, 2^40, near i64::MIN/MAX: tiny values must underflow to zero, huge ones overflow to infinity): judged in exact rational arithmetic from the returned bits (sign, 2^-48 relative, one subnormal step, infinity only near/after MAX). "
                 "Thorough adds all 2^32 f32 patterns against an independent exact formula in-process.",
         "trusted_base": TB_COMMON + ["IEEE-754 behaviour of the float primitives used inside to_f64 (BigUint::to_f64, powi, str::parse): to_f64 is judged per sampled input, not modelled"],
         "assumptions": ASSUME_COMMON,
@@ -178,7 +180,7 @@ PROPS = {
     "C20": {
         "rule": "the C20 case set (Context::default() vs the generated constants; default-context sqrt/cbrt/inverse vs explicit Context::default(); sqrt/cbrt/round/division/exp vs the model "
                 "instantiated with the configured precision and mode; small-scope exhaustive division of all numerators and denominators below 1000 (120 when precision > 3 in quick); Display "
-                "around both thresholds and precision formatting around the padding limit vs the character-level model with the configured thresholds) is run under the default build and under "
+                "around both thresholds and precision formatting around the padding limit, plus deterministic cases one below / at / one above every configured limit (padding, upper and lower threshold), vs the character-level model with the configured thresholds) is run under the default build and under "
                 "rebuilt harness binaries: quick = {prec 3, Up, low 1, high 0, pad 0}, {prec 250, Floor, low 9, high 40, pad 1000}, one seed-chosen combination; thorough = every one-factor "
                 "variation of precision {1,2,3,7,16,34,250}, the 6 other modes, low {1,9}, high {0,2,40}, pad {0,5} plus 8 random combinations. Each rebuilt binary reports its configuration "
                 "through the hooks and must match the requested environment.",
